@@ -7,7 +7,7 @@
      implementation sent to the backend at the same call index, otherwise the oracle answers with an
      ill-shaped triple and the model run ends in Err. *)
 From Coq Require Import List Arith ZArith QArith Qabs Bool.
-From TLV Require Import Base.Shape Base.PyList Base.Tensor Base.Ops Model.SvdDecomp Corr.Common.
+From TLV Require Import Base.Shape Base.PyList Base.Tensor Base.Ops Model.SvdDecomp Model.SvdDecompSymeig Corr.Common.
 Import ListNotations.
 
 Definition atol : Q := Qmake 1%Z 1000000000%positive.
@@ -23,7 +23,34 @@ Definition tape_svd (tape : list tape_entry) (k : nat) (M : tensor Q) : ans :=
   | None => bad
   end.
 
-Inductive kind := KTT | KTTM | KTR (mode : nat) | KTucker (n_iter : nat) | KStrict.
+(* svd="symeig_svd": the oracle of the generic model is the TRANSCRIPTION Model/SvdDecompSymeig.v fed with eigh's taped answer.
+   A tape entry of such a run is (Gram matrix the implementation sent to eigh, (W, s, lambda as a 1 x K tensor)) with
+   W = eigh's eigenvectors, lambda = eigh's eigenvalues, s = the square roots handed in by the harness.  The model computes the
+   Gram matrix itself (exactly) and compares it with the taped query; it clips lambda at eps itself and checks the square-root
+   contract s > 0, s^2 = clip(lambda, eps) (relative 1e-12); then U / V / flips / slices are the model's own arithmetic. *)
+Definition eps64 : Q := Qmake 1%Z 4503599627370496%positive.       (* 2^-52 = tl.eps(float64) *)
+Definition stol : Q := Qmake 1%Z 1000000000000%positive.
+Fixpoint sqrt_ok (s lam : list Q) : bool :=
+  match s, lam with
+  | [], [] => true
+  | si :: s', li :: lam' =>
+      Qle_bool 0 si && negb (Qeq_bool si 0) && qclose 0 stol (Qred (si * si)) (clip_min Qops eps64 li) && sqrt_ok s' lam'
+  | _, _ => false
+  end.
+
+Definition tape_symeig (tape : list tape_entry) (k : nat) (M : tensor Q) : ans :=
+  match nth_error tape k with
+  | Some (Gq, (W, s, lamT)) =>
+      if qt_close atol rtol (gram_query Qops M) Gq && sqrt_ok s (data lamT) then symeig_ans Qops M W s else bad
+  | None => bad
+  end.
+
+(* symeig runs: U is a computed quotient, so every factor is compared with tolerance (runs that keep a null-space triplet,
+   whose derived columns are rounding noise divided by sqrt(eps), are not sent here: they are judged by the predicates only) *)
+Definition atol_s : Q := Qmake 1%Z 10000000%positive.
+Definition rtol_s : Q := Qmake 1%Z 10000000%positive.
+
+Inductive kind := KTT | KTTM | KTR (mode : nat) | KTucker (n_iter : nat) | KStrict | KSym (k : kind).
 Inductive outcome := OErr | OFactors (fs : list (tensor Q)) | OTucker (core : tensor Q) (fs : list (tensor Q))
                  | ORanks (strict realised : list nat).
 
@@ -36,20 +63,23 @@ Fixpoint count2 {A} (p : A -> A -> bool) (a b : list A) : nat :=
 Definition factors_agree (m i : list (tensor Q)) : bool :=
   all2 (qt_close atol rtol) m i && (length i - 1 <=? count2 qt_eqb m i).
 
+Definition factors_close (m i : list (tensor Q)) : bool := all2 (qt_close atol_s rtol_s) m i.
+
 Definition case := (nat * kind * tensor Q * (nat + list nat) * list tape_entry * outcome)%type.
 
-Definition agree (c : case) : bool :=
-  let '(_, k, X, rank, tape, out) := c in
-  let sv := tape_svd tape in
+(* sv: the oracle; fa: comparison of factor lists; ta: comparison of Tucker (core, factors) *)
+Definition agree_kind (sv : nat -> tensor Q -> ans) (fa : list (tensor Q) -> list (tensor Q) -> bool)
+           (ta : tensor Q -> list (tensor Q) -> tensor Q -> list (tensor Q) -> bool)
+           (k : kind) (X : tensor Q) (rank : nat + list nat) (out : outcome) : bool :=
   match k with
   | KTT => match tensor_train Qops sv X rank, out with
-           | Ok fs, OFactors fi => factors_agree fs fi | Err, OErr => true | _, _ => false end
+           | Ok fs, OFactors fi => fa fs fi | Err, OErr => true | _, _ => false end
   | KTTM => match tensor_train_matrix Qops sv X rank, out with
-            | Ok fs, OFactors fi => factors_agree fs fi | Err, OErr => true | _, _ => false end
+            | Ok fs, OFactors fi => fa fs fi | Err, OErr => true | _, _ => false end
   | KTR mode => match tensor_ring Qops sv X rank mode, out with
-                | Ok fs, OFactors fi => factors_agree fs fi | Err, OErr => true | _, _ => false end
+                | Ok fs, OFactors fi => fa fs fi | Err, OErr => true | _, _ => false end
   | KTucker it => match tucker Qops sv X rank it, out with
-                  | Ok (core, fs), OTucker ci fi => qt_close atol rtol core ci && all2 qt_eqb fs fi
+                  | Ok (core, fs), OTucker ci fi => ta core fs ci fi
                   | Err, OErr => true | _, _ => false end
   (* validate_tt_rank(shape, rank, allow_overparametrization=False) as the code is (exact), and the ranks tensor_train
      returned on a tensor of that shape against the closed form realised_tt_rank (exact); only the shape of X is used *)
@@ -58,6 +88,20 @@ Definition agree (c : case) : bool :=
                    all2 Nat.eqb (validate_tt_rank_strict_code (shape X) rk) strict &&
                    all2 Nat.eqb (realised_tt_rank (shape X) rk) realised
                | Err, OErr => true | _, _ => false end
+  | KSym _ => false
+  end.
+
+Definition agree (c : case) : bool :=
+  let '(_, k, X, rank, tape, out) := c in
+  match k with
+  | KSym k' =>
+      (* tucker(svd="symeig_svd"): only initialize_tucker passes the method on; the HOOI sweeps of partial_tucker call
+         svd_interface without `method`, i.e. with truncated_svd -- calls 0..ndim-1 are symeig entries, the later ones svd entries *)
+      let nsym := match k' with KTucker _ => ndim X | _ => length tape end in
+      agree_kind (fun k M => if k <? nsym then tape_symeig tape k M else tape_svd tape k M) factors_close
+                 (fun core fs ci fi => qt_close atol_s rtol_s core ci && all2 (qt_close atol_s rtol_s) fs fi) k' X rank out
+  | _ => agree_kind (tape_svd tape) factors_agree
+                 (fun core fs ci fi => qt_close atol rtol core ci && all2 qt_eqb fs fi) k X rank out
   end.
 
 Definition ident (c : case) : nat := let '(i, _, _, _, _, _) := c in i.
